@@ -46,6 +46,19 @@ mod body {
         pub y: u32,
         pub z: u32,
     }
+    /// The only use of `to_dyn!`; with `--cfg verif_no_to_dyn` everything else still type-checks against rrtk's API
+    /// (the driver uses this to tell "the expansion does not compile" from "something else does not compile").
+    fn convert(r: Reference<S>) -> Reference<dyn Tr> {
+        #[cfg(not(verif_no_to_dyn))]
+        {
+            to_dyn!(Tr, r)
+        }
+        #[cfg(verif_no_to_dyn)]
+        {
+            let _ = r;
+            unimplemented!()
+        }
+    }
     /// Postcondition of the conversion, through the public API only: the trait-object handle and a clone of the
     /// source taken before the conversion are one object (writes through either are read through the other).
     fn aliases(d: Reference<dyn Tr>, keep: Reference<S>, i: In) {
@@ -62,22 +75,19 @@ mod body {
     pub fn rc_case(i: In) {
         let r = rc_ref_cell_reference(S { pad: i.pad, v: i.v0 });
         let keep = r.clone();
-        let d: Reference<dyn Tr> = to_dyn!(Tr, r);
-        aliases(d, keep, i);
+        aliases(convert(r), keep, i);
     }
     pub fn ptr_rw_lock_case(i: In) {
         let lock = RwLock::new(S { pad: i.pad, v: i.v0 });
         let r = unsafe { Reference::from_ptr_rw_lock(&lock as *const RwLock<S>) };
         let keep = r.clone();
-        let d: Reference<dyn Tr> = to_dyn!(Tr, r);
-        aliases(d, keep, i);
+        aliases(convert(r), keep, i);
     }
     pub fn ptr_case(i: In) {
         let mut target = S { pad: i.pad, v: i.v0 };
         let r = unsafe { Reference::from_ptr(&mut target as *mut S) };
         let keep = r.clone();
-        let d: Reference<dyn Tr> = to_dyn!(Tr, r);
-        aliases(d, keep, i);
+        aliases(convert(r), keep, i);
     }
 }
 
